@@ -1801,13 +1801,13 @@ def _lincomb_impl(a, x1, b, x2, out):
             # Zero assignment as in the other branches, no multiplication,
             # so that `set_zero` also works on uninitialized (possibly
             # NaN-filled) memory
-            out.data[:] = 0
+            out.data[...] = 0
         elif a == 1 and b == 0:
             # Plain copy without arithmetic for `assign` and `copy`, so
             # that non-finite entries are retained (``0 * inf`` is NaN)
-            out.data[:] = x1.data
+            out.data[...] = x1.data
         else:
-            out.data[:] = a * x1.data + b * x2.data
+            out.data[...] = a * x1.data + b * x2.data
         return
 
     elif (size < THRESHOLD_MEDIUM or
